@@ -212,7 +212,8 @@ func (i *IVFWriter) writeVP8(packet *rtp.Packet, timestamp uint64) error {
 		return err
 	}
 
-	isKeyFrame := (vp8Packet.Payload[0] & 0x01) == 0
+	// A packet may carry a VP8 payload descriptor and nothing else; it is never the start of a key frame.
+	isKeyFrame := len(vp8Packet.Payload) > 0 && (vp8Packet.Payload[0]&0x01) == 0
 	switch {
 	case !i.seenKeyFrame && !isKeyFrame:
 		return nil
